@@ -699,7 +699,8 @@ class World:
                  fileSize=-1 if h.file_size is None else h.file_size, nready=h.num_packets_ready,
                  tidSet=t is not None, tseq=-1 if t is None else t.seq_num.value)
         if side == "S":
-            d.update(ackCnt=h.positive_ack_counter)
+            # qlen: the PDUs really queued (nready is the handler's own counter, which the API calls consult)
+            d.update(ackCnt=h.positive_ack_counter, qlen=len(h._pdus_to_be_sent))
         else:
             d.update(ackCnt=h.positive_ack_counter, nakCnt=h.nak_activity_counter, chkCnt=h.current_check_counter,
                      deferred=bool(h.deferred_lost_segment_procedure_active))
